@@ -6354,6 +6354,332 @@ fn mode_deferred(work: &str, seed: u64, thorough: bool) {
 	}
 }
 
+// ---------------------------------------------------------------------------------------------
+// run `rehandle`: a `Store` handle opened on an environment that is ALREADY registered and in use.
+// Handle 1 (thread R) holds a live `Store::iter` iterator - an open read transaction, counted in the
+// environment's open-transaction counter - and the map is filled past the resize threshold.  Then
+// `Store::new` runs on the same root (same names / database "peer" with other key spaces / two more
+// handles one of which is dropped at once / only after the resize has become pending).  Opening a
+// handle must leave the environment's gate state (open_txs_count, resizing, resize_checking) alone:
+//   * the batch of handle 2 that finds the resize due must WAIT while the reader is open (the
+//     resize may not run under an open read transaction) and succeed once it is closed;
+//   * a handle opened while the resize is pending must not cancel it (the parked batch stays parked);
+//   * closing the reader must not panic / underflow the counter: parked writers of both handles
+//     succeed, and further growth through both handles still resizes (a wrapped counter makes the
+//     next deferred resize wait for ever - watchdog);
+//   * control: without a reader the same batch resizes at once.
+// Oracle lines `#ORACLE-FAIL C18 rehandle …`; driver lines `kv rh-trigger …` (waited|direct,
+// property-fixed) and `kv rh-map …` (map size after the release, resize model).
+// ---------------------------------------------------------------------------------------------
+fn mode_rehandle(work: &str, seed: u64, thorough: bool) {
+	use std::sync::atomic::{AtomicBool, AtomicU64, Ordering};
+	const CHUNK: u64 = 1_048_576;
+	const REC: usize = 32_768;
+	let mut out = Out::stdout();
+	let progress = Arc::new(AtomicU64::new(0));
+	let phase = Arc::new(std::sync::Mutex::new(String::new()));
+	{
+		// watchdog: a wrapped open-transaction counter or a leaked `resizing` flag makes a later
+		// Store::batch() wait for ever.  Generous: 120 s without any step.
+		let progress = progress.clone();
+		let phase = phase.clone();
+		thread::spawn(move || {
+			let mut last = (0u64, Instant::now());
+			loop {
+				thread::sleep(Duration::from_millis(500));
+				let p = progress.load(Ordering::SeqCst);
+				if p != last.0 {
+					last = (p, Instant::now());
+				} else if last.1.elapsed() > Duration::from_secs(120) {
+					println!(
+						"\n#ORACLE-FAIL C18 rehandle: no progress for 120 s in {}: Store::batch() does not return (open-transaction counter wrapped / resize flags not released after a handle was opened on the registered environment?)",
+						phase.lock().unwrap()
+					);
+					std::process::exit(0);
+				}
+			}
+		});
+	}
+	let tick = |p: &Arc<AtomicU64>| {
+		p.fetch_add(1, Ordering::SeqCst);
+	};
+	let variants: Vec<(&str, bool)> = {
+		let mut v = vec![("same", true), ("peer", true), ("two-more", true), ("open-while-pending", true), ("same", false), ("peer", false)];
+		if thorough {
+			v.extend(vec![("same", true), ("peer", true), ("open-while-pending", true), ("two-more", false)]);
+		}
+		v
+	};
+	let open2 = |dir: &str, variant: &str| -> Result<Store, Error> {
+		global::set_local_chain_type(ChainTypes::AutomatedTesting);
+		if variant == "peer" {
+			Store::new(dir, None, Some("peer"), vec![b'A', b'P'], None, None)
+		} else {
+			Store::new(dir, None, None, DBS.to_vec(), None, None)
+		}
+	};
+	let (mut n_cases, mut n_waited, mut n_direct, mut n_fail) = (0u64, 0u64, 0u64, 0u64);
+	let mut rng = Rng::new(seed ^ 0x7265_6861);
+	for (vi, (variant, reader)) in variants.iter().enumerate() {
+		let dir = format!("{}/rehandle_{}", work, vi);
+		let _ = std::fs::remove_dir_all(&dir);
+		*phase.lock().unwrap() = format!("{} reader={} (fill)", variant, reader);
+		let h1 = Arc::new(open_store(&dir));
+		let mut fails: Vec<String> = vec![];
+		let mut key = 0u32;
+		// ---- 1. ordinary growth through handle 1 until the NEXT batch() finds the resize due
+		let pre_resizes = rng.below(2);
+		let mut seen_resizes = 0u64;
+		let mut last_map = meta_info(&dir).map(|m| m.0).unwrap_or(CHUNK);
+		loop {
+			let m = meta_info(&dir).unwrap_or((CHUNK, 0, 0));
+			if m.0 != last_map {
+				seen_resizes += 1;
+				last_map = m.0;
+			}
+			if m.1 * 4096 * 10 > 9 * m.0 && seen_resizes >= pre_resizes {
+				break;
+			}
+			key += 1;
+			let r = h1.batch().and_then(|mut b| {
+				b.put(None, format!("f{:06}", key).as_bytes(), &vec![7u8; REC])?;
+				b.commit()
+			});
+			if let Err(e) = r {
+				fails.push(format!("an ordinary single-record batch failed while filling: {:?}", e));
+				break;
+			}
+			tick(&progress);
+		}
+		let (map0, last0, _) = meta_info(&dir).unwrap_or((CHUNK, 0, 0));
+		// ---- 2. the reader: a live store-level iterator on handle 1, on its own thread
+		let (r_cmd, r_cmd_rx) = mpsc::channel::<&'static str>();
+		let (r_ack_tx, r_ack) = mpsc::channel::<String>();
+		let reader_thread = if *reader {
+			let h = h1.clone();
+			Some(thread::spawn(move || {
+				let it = h.iter(None, kvpair);
+				let mut it = match it {
+					Ok(it) => it,
+					Err(e) => {
+						let _ = r_ack_tx.send(format!("err:{:?}", e));
+						return;
+					}
+				};
+				let first = it.next().map(|r| r.is_ok()).unwrap_or(false);
+				let _ = r_ack_tx.send(format!("open:{}", first));
+				let _ = r_cmd_rx.recv();
+				// closed WITHOUT touching the snapshot again
+				drop(it);
+				let _ = r_ack_tx.send("closed".to_string());
+			}))
+		} else {
+			None
+		};
+		if *reader {
+			match r_ack.recv_timeout(Duration::from_secs(60)) {
+				Ok(a) if a.starts_with("open:true") => {}
+				other => fails.push(format!("the reader could not open its iterator: {:?}", other)),
+			}
+		}
+		tick(&progress);
+		// ---- 3. the operation under test: Store::new on the registered environment
+		*phase.lock().unwrap() = format!("{} reader={} (Store::new on the registered environment)", variant, reader);
+		let mut extra: Vec<Store> = vec![];
+		let h2 = match if *variant == "open-while-pending" { open2(&dir, "same") } else { open2(&dir, variant) } {
+			Ok(s) => Arc::new(s),
+			Err(e) => {
+				out.raw(&format!("#ORACLE-FAIL C18 rehandle [{} reader={}]: Store::new on an environment in use failed: {:?}", variant, reader, e));
+				n_fail += 1;
+				continue;
+			}
+		};
+		if *variant == "two-more" {
+			// a third handle that goes away again (Drop for Store: stores_count - 1, the environment
+			// stays) and a fourth that stays
+			match open2(&dir, "peer") {
+				Ok(s) => drop(s),
+				Err(e) => fails.push(format!("third handle: {:?}", e)),
+			}
+			match open2(&dir, "same") {
+				Ok(s) => extra.push(s),
+				Err(e) => fails.push(format!("fourth handle: {:?}", e)),
+			}
+		}
+		tick(&progress);
+		// ---- 4. the trigger: a batch through the NEW handle that finds the resize due
+		*phase.lock().unwrap() = format!("{} reader={} (trigger batch through the new handle)", variant, reader);
+		let entered = Arc::new(AtomicBool::new(false));
+		let (w_tx, w_rx) = mpsc::channel::<Result<(), String>>();
+		let big = 8usize;
+		{
+			let h = h2.clone();
+			let entered = entered.clone();
+			let base = key;
+			let trig_db: Db = if *variant == "peer" { Some(b'A') } else { None };
+			thread::spawn(move || {
+				let r = (|| -> Result<(), Error> {
+					let mut b = h.batch()?;
+					entered.store(true, Ordering::SeqCst);
+					for i in 0..big {
+						b.put(trig_db, format!("t{:06}_{}", base, i).as_bytes(), &vec![9u8; REC])?;
+					}
+					b.commit()
+				})();
+				let _ = w_tx.send(r.map_err(|e| format!("{:?}", e)));
+			});
+		}
+		let mut trig_res: Option<Result<(), String>> = None;
+		let mut early = false;
+		if *reader {
+			thread::sleep(Duration::from_millis(1500));
+			early = entered.load(Ordering::SeqCst);
+			if *variant == "open-while-pending" && !early {
+				// the resize is pending behind the reader: one more handle is opened NOW
+				match open2(&dir, "peer") {
+					Ok(s) => extra.push(s),
+					Err(e) => fails.push(format!("handle opened while the resize is pending: {:?}", e)),
+				}
+				thread::sleep(Duration::from_millis(1500));
+				if entered.load(Ordering::SeqCst) {
+					early = true;
+					fails.push("a handle opened while the resize was pending let the parked batch through (pending resize cancelled / flags re-initialised)".to_string());
+				}
+			}
+			// parked writers: small batches through both handles, issued while the gate is closed
+			let mut parked = vec![];
+			for (pi, h) in [h1.clone(), h2.clone()].into_iter().enumerate() {
+				let (p_tx, p_rx) = mpsc::channel::<Result<(), String>>();
+				let base = key;
+				thread::spawn(move || {
+					let r = (|| -> Result<(), Error> {
+						let mut b = h.batch()?;
+						b.put(Some(b'A'), format!("p{:06}_{}", base, pi).as_bytes(), &[pi as u8; 100])?;
+						b.commit()
+					})();
+					let _ = p_tx.send(r.map_err(|e| format!("{:?}", e)));
+				});
+				parked.push(p_rx);
+			}
+			thread::sleep(Duration::from_millis(300));
+			if entered.load(Ordering::SeqCst) && !early {
+				early = true;
+			}
+			if early && !fails.iter().any(|f| f.contains("pending")) {
+				fails.push(format!(
+					"the batch that found the resize due (map {} B, {} B used) did NOT wait: Store::batch() returned while another thread's iterator (read transaction) on the same environment was still open - env.resize may run under an open transaction",
+					map0, last0 * 4096
+				));
+			}
+			// release the reader
+			*phase.lock().unwrap() = format!("{} reader={} (closing the reader)", variant, reader);
+			let _ = r_cmd.send("close");
+			match r_ack.recv_timeout(Duration::from_secs(60)) {
+				Ok(a) if a == "closed" => {}
+				other => fails.push(format!("closing the reader's iterator did not complete: {:?} (panic in TxCounter::drop: counter underflow?)", other)),
+			}
+			if let Some(t) = reader_thread {
+				if t.join().is_err() {
+					fails.push("the reader thread panicked while closing its iterator (open-transaction counter underflow?)".to_string());
+				}
+			}
+			tick(&progress);
+			*phase.lock().unwrap() = format!("{} reader={} (waiting for the parked batches)", variant, reader);
+			match w_rx.recv_timeout(Duration::from_secs(110)) {
+				Ok(r) => trig_res = Some(r),
+				Err(_) => fails.push("the parked trigger batch did not complete within 110 s after the reader was closed".to_string()),
+			}
+			tick(&progress);
+			for (pi, p) in parked.iter().enumerate() {
+				match p.recv_timeout(Duration::from_secs(110)) {
+					Ok(Ok(())) => {}
+					Ok(Err(e)) => fails.push(format!("parked writer {} failed: {}", pi, e)),
+					Err(_) => fails.push(format!("parked writer {} did not complete within 110 s", pi)),
+				}
+				tick(&progress);
+			}
+		} else {
+			match w_rx.recv_timeout(Duration::from_secs(110)) {
+				Ok(r) => trig_res = Some(r),
+				Err(_) => fails.push("without any reader the trigger batch did not complete within 110 s".to_string()),
+			}
+			tick(&progress);
+		}
+		match &trig_res {
+			Some(Ok(())) => {}
+			Some(Err(e)) => fails.push(format!("the trigger batch ({} records of {} B through the new handle) failed: {}", big, REC, e)),
+			None => {}
+		}
+		let waited = *reader && !early;
+		if waited {
+			n_waited += 1;
+		} else {
+			n_direct += 1;
+		}
+		let (map1, _, _) = meta_info(&dir).unwrap_or((0, 0, 0));
+		out.line(
+			&format!("kv rh-trigger {} reader={} used={} map={} chunk={}", variant, if *reader { 1 } else { 0 }, last0 * 4096, map0, CHUNK),
+			if waited { "waited" } else { "direct" },
+		);
+		out.line(
+			&format!("kv rh-map {} reader={} used={} map={} chunk={}", variant, if *reader { 1 } else { 0 }, last0 * 4096, map0, CHUNK),
+			&map1.to_string(),
+		);
+		// ---- 5. afterwards: everything is closed; both handles keep growing through two more resizes
+		*phase.lock().unwrap() = format!("{} reader={} (further growth through both handles)", variant, reader);
+		let mut more = 0u64;
+		let mut cur = map1;
+		let mut guard = 0u64;
+		while more < 2 && guard < 400 && fails.is_empty() {
+			guard += 1;
+			key += 1;
+			let h = if guard % 2 == 0 { &h1 } else { &h2 };
+			let r = h.batch().and_then(|mut b| {
+				b.put(Some(b'A'), format!("g{:06}", key).as_bytes(), &vec![5u8; REC])?;
+				b.commit()
+			});
+			if let Err(e) = r {
+				fails.push(format!("growth after the scenario: a single-record batch failed: {:?}", e));
+				break;
+			}
+			tick(&progress);
+			let m = meta_info(&dir).map(|m| m.0).unwrap_or(cur);
+			if m != cur {
+				more += 1;
+				cur = m;
+			}
+		}
+		if fails.is_empty() && more < 2 {
+			fails.push(format!("after the scenario the map did not grow any more ({} B after {} more batches)", cur, guard));
+		}
+		// the trigger's and the parked writers' records are all there, through either handle
+		if fails.is_empty() {
+			let cnt = |h: &Store, db: Db| -> Result<usize, ()> { collect_iter(h.iter(db, kvpair)).map(|v| v.len()) };
+			let a1 = cnt(&h1, Some(b'A'));
+			let a2 = cnt(&h2, Some(b'A'));
+			if a1 != a2 || a1.is_err() {
+				fails.push(format!("key space A read through handle 1 has {:?} records, through the new handle {:?}", a1, a2));
+			}
+		}
+		n_cases += 1;
+		if !fails.is_empty() {
+			n_fail += 1;
+			out.raw(&format!("#ORACLE-FAIL C18 rehandle [{} reader={}]: {}", variant, reader, fails.join("; ")));
+		}
+		out.flush();
+		drop(extra);
+		drop(h2);
+		drop(h1);
+		let _ = std::fs::remove_dir_all(&dir);
+	}
+	out.raw(&format!(
+		"#STAT [rehandle] scenarios={} (handle opened on a registered environment in use: same names / db 'peer' / two more handles one dropped / opened while the resize is pending; with and without a live reader) trigger batches that waited for the reader={} resized at once={} oracle failures={}",
+		n_cases, n_waited, n_direct, n_fail
+	));
+	out.flush();
+}
+
+
 fn main() {
 	if std::env::var("VERIF_KV_LOUD").is_err() {
 		quiet_panics();
@@ -6399,6 +6725,7 @@ fn main() {
 		"migrate" => mode_migrate(&work, seed, thorough),
 		"shared" => mode_shared(&work, seed, thorough),
 		"deferred" => mode_deferred(&work, seed, thorough),
+		"rehandle" => mode_rehandle(&work, seed, thorough),
 		"dropprobe" => mode_dropprobe(&work),
 		"newprobe" => mode_newprobe(&work, seed, thorough),
 		_ => {
